@@ -433,5 +433,72 @@ __CPROVER_ensures((g_n > 0 && RFS_C == g_n) ==> ((g_rxq.n == 0 && g_free_calls =
 __CPROVER_ensures((g_n > 0 && RFS_C == g_n) ==> (g_rxq.n == 0 && g_free_calls == OLD(g_free_calls) + 1 && __CPROVER_was_freed(OLD(g_rxq.item[0]))))
 #endif
 ;
+
+/* ---- emit side: control frames (RFC 6455 5.5; C16) -------------------------
+ * ws_send_control: a PING/PONG with the given payload goes out AHEAD of queued
+ * data (or at once when the transmitter is idle); a payload above 125 bytes
+ * can not be carried by a control frame and is refused: nothing is emitted.
+ * (The bytes of the frame are the business of ws_msg_init_control, replaced
+ * here by its contract, enforced in module wsframe.) */
+#define SCT_F_OK(F) ((F)->head[0] == (uint8_t) (0x80u | op) && ((F)->head[1] & 0x7fu) == len && (((F)->head[1] & 0x80u) != 0) == !ws->server && (F)->len == len && (F)->aio == NULL && (F)->asize == 0)
+#define SCT_BUILT (!OLD(ws->closed) && len <= 125 && g_alloc_ok == OLD(g_alloc_ok) + 1)
+static void ws_send_control(nni_ws *ws, uint8_t op, uint8_t *buf, size_t len)
+__CPROVER_requires(__CPROVER_is_fresh(ws, sizeof(*ws)) && WSR_LISTS_PRE(ws) && WSR_TXQ_WF && g_eq == 0 && (op == WS_OP_PING || op == WS_OP_PONG))
+__CPROVER_requires(len > 125 || (len == 0 && buf == NULL) || __CPROVER_is_fresh(buf, len == 0 ? 1 : len))
+__CPROVER_assigns(!ws->closed: WSF_CTL_GHOSTS, WSF_ALLOC_GHOSTS, WSF_RAND_GHOSTS, WSF_TX_GHOSTS, ws->txframe, WSF_IOV_OF(ws->txaio))
+/* closing: nothing is sent any more (assigns clause).  Over-long payload: refused, nothing built, nothing queued, nothing written */
+__CPROVER_ensures((!OLD(ws->closed) && len > 125) ==> (g_alloc_ok == OLD(g_alloc_ok) && WSF_TXQ_SAME && g_wr_calls == OLD(g_wr_calls) && ws->txframe == OLD(ws->txframe)))
+/* at most one frame is built; if that fails nothing changes */
+__CPROVER_ensures(!OLD(ws->closed) ==> (g_free_calls == OLD(g_free_calls) && (g_alloc_ok == OLD(g_alloc_ok) || g_alloc_ok == OLD(g_alloc_ok) + 1) && g_ctl_calls == OLD(g_ctl_calls) + 1 && g_ctl_op == op && g_ctl_len == len))
+__CPROVER_ensures((!OLD(ws->closed) && g_alloc_ok == OLD(g_alloc_ok)) ==> (WSF_TXQ_SAME && g_wr_calls == OLD(g_wr_calls) && ws->txframe == OLD(ws->txframe)))
+/* transmitter idle: the frame goes out now */
+__CPROVER_ensures((SCT_BUILT && OLD(ws->txframe) == NULL && ws->ready) ==> (__CPROVER_is_fresh(ws->txframe, sizeof(ws_frame)) && SCT_F_OK(ws->txframe) && WSR_WRITING(ws, ws->txframe) && g_wr_calls == OLD(g_wr_calls) + 1 && g_txq.n == OLD(g_txq.n)))
+/* transmitter busy (or connection not established): first in line */
+__CPROVER_ensures((SCT_BUILT && !(OLD(ws->txframe) == NULL && ws->ready)) ==> (__CPROVER_is_fresh(g_txq.head, sizeof(ws_frame)) && SCT_F_OK(g_txq.head) && g_txq.n == OLD(g_txq.n) + 1 && g_txq.next == OLD(g_txq.head) && ws->txframe == OLD(ws->txframe) && g_wr_calls == OLD(g_wr_calls)))
+;
+
+/* ---- emit side: the CLOSE frame (RFC 6455 5.5.1, 7.1.2; C16) ---------------
+ * Same statement as the closing part of ws_close (module wsframe): ONE CLOSE
+ * frame with FIN set, a 2-byte big-endian status code, masked iff we are the
+ * client, ahead of everything queued. */
+static void ws_send_close(nni_ws *ws, uint16_t code)
+__CPROVER_requires(__CPROVER_is_fresh(ws, sizeof(*ws)) && WSR_LISTS_PRE(ws) && WSR_TXQ_WF)
+__CPROVER_requires(g_txq.n == 0 || __CPROVER_is_fresh(g_txq.head, sizeof(ws_frame)))
+__CPROVER_requires(g_eq == WSF_EQ_CTL ==> ((g_k == 0 ==> g_b == (uint8_t) (code >> 8)) && (g_k == 1 ==> g_b == (uint8_t) code)))
+__CPROVER_assigns(!ws->closed && ws->ready: ws->closed, ws->wclose, WSF_FIN_GHOSTS, g_f1.first_aio, g_f1.first_rv, g_f1.first_count, WSF_CTL_GHOSTS, WSF_TX_GHOSTS, WSF_ALLOC_GHOSTS, WSF_RAND_GHOSTS, ws->txframe, WSF_IOV_OF(ws->txaio))
+/* already closing or not established: nothing (assigns clause) */
+__CPROVER_ensures(CL_DO ==> (ws->closed && g_ctl_calls == OLD(g_ctl_calls) + 1 && g_ctl_op == WS_OP_CLOSE && g_ctl_len == 2 && g_aio_reset_calls == OLD(g_aio_reset_calls) + 1 && WSF_TXQ_OK))
+__CPROVER_ensures(CL_DO ==> (g_alloc_ok == OLD(g_alloc_ok) || g_alloc_ok == OLD(g_alloc_ok) + 1))
+__CPROVER_ensures(CL_NOMEM ==> (!ws->wclose && g_fin_calls == OLD(g_fin_calls) + 1 && g_fin_last == &ws->closeaio && g_fin_last_rv == NNG_ENOMEM && WSF_TXQ_SAME && g_wr_calls == OLD(g_wr_calls) && g_free_calls == OLD(g_free_calls)))
+__CPROVER_ensures(CL_REFUSED ==> (!ws->wclose && g_fin_calls == OLD(g_fin_calls) && g_free_calls == OLD(g_free_calls) + 1 && WSF_TXQ_SAME && g_wr_calls == OLD(g_wr_calls)))
+__CPROVER_ensures(CL_SENT ==> (ws->wclose && g_fin_calls == OLD(g_fin_calls) && g_start_calls == OLD(g_start_calls) + 1 && g_free_calls == OLD(g_free_calls)))
+__CPROVER_ensures((CL_SENT && OLD(ws->txframe) == NULL) ==> (__CPROVER_is_fresh(ws->txframe, sizeof(ws_frame)) && WSF_IS_CLOSE_FRAME(ws->txframe, ws) && WSF_TXQ_SAME && g_wr_calls == OLD(g_wr_calls) + 1 && WSR_WRITING(ws, ws->txframe)))
+__CPROVER_ensures((CL_SENT && OLD(ws->txframe) != NULL) ==> (__CPROVER_is_fresh(g_txq.head, sizeof(ws_frame)) && WSF_IS_CLOSE_FRAME(g_txq.head, ws) && g_txq.n == OLD(g_txq.n) + 1 && g_txq.next == OLD(g_txq.head) && ws->txframe == OLD(ws->txframe) && g_wr_calls == OLD(g_wr_calls)))
+;
+
+/* ---- cancellation of a send (C02) ------------------------------------------ */
+#define WX ((nni_ws *) arg)
+#define WX_F ((ws_frame *) aio->a_prov_data)
+#define WX_ACTIVE (OLD(aio->a_prov_node.ln_next) != NULL)
+#define WX_INFLIGHT (WX_ACTIVE && OLD(aio->a_prov_data) == (void *) WX->txframe)
+#define WX_QUEUED (WX_ACTIVE && OLD(aio->a_prov_data) != (void *) WX->txframe)
+static void ws_write_cancel(nni_aio *aio, void *arg, nng_err rv)
+__CPROVER_requires(__CPROVER_is_fresh(arg, sizeof(nni_ws)) && __CPROVER_is_fresh(aio, sizeof(nni_aio)) && WSR_LISTS_PRE(WX) && WSR_NOLOCK_PRE && WSR_TXQ_WF)
+__CPROVER_requires(WSF_Q_OK(g_sendq) && WSR_MEMBER_PRE(aio, g_sendq, &WX->sendq) && (g_sendq.n < 2 || aio != g_sendq.next || aio != g_sendq.head))
+/* a waiting send owns a frame (prov data) that is in flight or queued in txq */
+__CPROVER_requires(VP_AIO_TAG(aio) == NULL || (__CPROVER_is_fresh(aio->a_prov_data, sizeof(ws_frame)) && WX_F->aio == aio && (WX_F->asize == 0 || (WX_F->asize == WCB_BLK && __CPROVER_is_fresh(WX_F->adata, WCB_BLK)))))
+__CPROVER_requires(VP_AIO_TAG(aio) == NULL || WX->txframe == (ws_frame *) aio->a_prov_data || (g_txq.n >= 1 && (g_txq.head == (ws_frame *) aio->a_prov_data || g_txq.n >= 2)))
+__CPROVER_assigns(VP_SYNC_GHOSTS, g_sendq, WSF_FIN_GHOSTS, g_f1.first_aio, g_f1.first_rv, g_f1.first_count, g_rs.abort_calls, g_rs.abort_aio, g_rs.abort_rv, g_tx.txq, g_free_calls, aio->a_prov_node;
+	aio->a_prov_node.ln_next != NULL: __CPROVER_object_whole(aio->a_prov_data))
+__CPROVER_frees(aio->a_prov_node.ln_next != NULL: aio->a_prov_data; aio->a_prov_node.ln_next != NULL && ((ws_frame *) aio->a_prov_data)->asize != 0: ((ws_frame *) aio->a_prov_data)->adata)
+__CPROVER_ensures(VP_NO_LOCK_HELD)
+/* already completed: nothing is reported, nothing changes */
+__CPROVER_ensures(!WX_ACTIVE ==> (g_fin_calls == OLD(g_fin_calls) && g_abort_calls == OLD(g_abort_calls) && g_sendq.n == OLD(g_sendq.n) && WSF_TXQ_SAME && g_free_calls == OLD(g_free_calls)))
+/* its frame is being written: the write is aborted through the stream aio with the cancel code; the completion (exactly one) comes from ws_write_cb */
+__CPROVER_ensures(WX_INFLIGHT ==> (g_abort_calls == OLD(g_abort_calls) + 1 && g_abort_aio == &WX->txaio && g_abort_rv == (int) rv && g_fin_calls == OLD(g_fin_calls) && g_sendq.n == OLD(g_sendq.n) && VP_AIO_ON(aio, &WX->sendq) && WSF_TXQ_SAME && g_free_calls == OLD(g_free_calls)))
+/* still queued: frame leaves txq and is released, the send leaves sendq and is completed exactly once with the cancel code */
+__CPROVER_ensures(WX_QUEUED ==> (g_fin_calls == OLD(g_fin_calls) + 1 && g_fin_last == aio && g_fin_last_rv == (int) rv && g_fin_last_count == 0 && g_sendq.n == OLD(g_sendq.n) - 1 && aio->a_prov_node.ln_next == NULL && g_abort_calls == OLD(g_abort_calls)))
+__CPROVER_ensures(WX_QUEUED ==> (g_txq.n == OLD(g_txq.n) - 1 && WSR_TXQ_WF && g_free_calls == OLD(g_free_calls) + 1 + (OLD(((ws_frame *) aio->a_prov_data)->asize) != 0 ? 1 : 0) && __CPROVER_was_freed(OLD(aio->a_prov_data))))
+;
 /* clang-format on */
 #endif
